@@ -197,7 +197,7 @@ pub fn loop_inputs(def: &Def, alpha: &[Sym], max_n: usize) -> Vec<Vec<u8>> {
                     out.push(t.clone());
                     // a long tail after the run: the run ends inside a chunk that is completely
                     // inside the input (chunked reads of 8 / 16 bytes)
-                    if n % 3 == 2 {
+                    if n % 3 == 2 || n == 0 || n == 16 {
                         for _ in 0..17 {
                             t.extend_from_slice(x);
                         }
